@@ -8,7 +8,9 @@
  construction: a never-reset object behaves as a reset one).
    SumHash       = Digest(stream[0..slen))
    ComputeHash(x)= Digest(x), independent of anything written before
-   sponge  : SumHash / ComputeHash finalise the object (no further Write without Reset)
+   sponge  : SumHash / ComputeHash finalise the object; a Write or a second SumHash on a finalised sponge is outside the
+             documented use: the model takes the step ("dirty"), prescribes nothing for its result (expect = -2), and requires
+             the next Reset or ComputeHash to restore the documented behaviour completely
    sha2    : Write after SumHash continues the same stream; ComputeHash resets and finalises (conservative)
    kmac    : SumHash and ComputeHash work on clones: the stream is untouched
  The stream content is fixed by the harness (a position-dependent pattern),
@@ -29,11 +31,11 @@ CONSTANTS Rate,     \* 136 (SHA3-256, Keccak-256) | 104 (SHA3-384); ignored for 
           Lens,     \* lengths offered to Write / ComputeHash
           Record    \* TRUE: keep the history (for Emit); FALSE: buffer invariants over all lengths, no history
 
-VARIABLES slen, fin, bufNil, bufSize, blocks, fast, hist, nops
-vars == <<slen, fin, bufNil, bufSize, blocks, fast, hist, nops>>
+VARIABLES slen, fin, bufNil, bufSize, blocks, fast, hist, nops, dirty
+vars == <<slen, fin, bufNil, bufSize, blocks, fast, hist, nops, dirty>>
 
 Init == /\ slen = 0 /\ fin = FALSE /\ bufNil = TRUE /\ bufSize = -1 /\ blocks = 0 /\ fast = 0
-        /\ hist = <<>> /\ nops = 0
+        /\ hist = <<>> /\ nops = 0 /\ dirty = FALSE
 
 Min(a, b) == IF a < b THEN a ELSE b
 
@@ -52,26 +54,36 @@ Log(op, k, expect) == IF Record THEN hist' = Append(hist, [op |-> op, k |-> k, e
 Reset ==
   /\ slen' = 0 /\ fin' = FALSE
   /\ bufNil' = FALSE /\ bufSize' = 0 /\ blocks' = 0 /\ fast' = 0                \* :127 Reset -> setBuf(0,0)
+  /\ dirty' = FALSE
   /\ Log("Reset", 0, -1)
 
+\* a step outside the documented use of a finalised sponge: taken, not judged
+Misuse(op, k) ==
+  /\ Class = "sponge" /\ fin
+  /\ dirty' = TRUE
+  /\ UNCHANGED <<slen, fin, bufNil, bufSize, blocks, fast>>
+  /\ Log(op, k, -2)
+
 Write(k) ==
-  /\ ~fin
-  /\ slen' = slen + k /\ fin' = fin
-  /\ IF Class = "sponge"
-     THEN LET r == WriteLoop(IF bufNil THEN 0 ELSE bufSize, blocks, fast, k) IN   \* :162 nil sentinel -> empty buffer
-          bufNil' = FALSE /\ bufSize' = r.bs /\ blocks' = r.bl /\ fast' = r.fp
-     ELSE UNCHANGED <<bufNil, bufSize, blocks, fast>>
-  /\ Log("Write", k, -1)
+  \/ Misuse("Write", k)
+  \/ /\ ~fin
+     /\ slen' = slen + k /\ fin' = fin /\ dirty' = dirty
+     /\ IF Class = "sponge"
+        THEN LET r == WriteLoop(IF bufNil THEN 0 ELSE bufSize, blocks, fast, k) IN   \* :162 nil sentinel -> empty buffer
+             bufNil' = FALSE /\ bufSize' = r.bs /\ blocks' = r.bl /\ fast' = r.fp
+        ELSE UNCHANGED <<bufNil, bufSize, blocks, fast>>
+     /\ Log("Write", k, -1)
 
 \* SumHash: digest of the slen bytes written so far
 Sum ==
-  /\ ~fin
-  /\ fin' = (Class = "sponge")
-  /\ IF Class = "sponge"
-     THEN bufNil' = FALSE /\ bufSize' = Rate /\ blocks' = blocks + 1 /\ fast' = fast   \* :188 pad, permute, setBuf(0, rate)
-     ELSE UNCHANGED <<bufNil, bufSize, blocks, fast>>
-  /\ UNCHANGED slen
-  /\ Log("SumHash", 0, slen)
+  \/ Misuse("SumHash", 0)
+  \/ /\ ~fin
+     /\ fin' = (Class = "sponge") /\ dirty' = dirty
+     /\ IF Class = "sponge"
+        THEN bufNil' = FALSE /\ bufSize' = Rate /\ blocks' = blocks + 1 /\ fast' = fast   \* :188 pad, permute, setBuf(0, rate)
+        ELSE UNCHANGED <<bufNil, bufSize, blocks, fast>>
+     /\ UNCHANGED slen
+     /\ Log("SumHash", 0, slen)
 
 \* ComputeHash(x), |x| = k: digest of x alone
 Compute(k) ==
@@ -81,6 +93,7 @@ Compute(k) ==
      THEN LET r == WriteLoop(0, 0, 0, k) IN
           bufNil' = FALSE /\ bufSize' = Rate /\ blocks' = r.bl + 1 /\ fast' = r.fp
      ELSE UNCHANGED <<bufNil, bufSize, blocks, fast>>
+  /\ dirty' = FALSE
   /\ Log("ComputeHash", k, k)
 
 Next ==
@@ -89,13 +102,15 @@ Next ==
         \/ \E k \in Lens : Write(k) \/ Compute(k)
   \/ (nops = MaxOps /\ UNCHANGED vars)
 Spec == Init /\ [][Next]_vars
-View == <<slen, fin, bufNil, bufSize, blocks, nops>>
+View == <<slen, fin, bufNil, bufSize, blocks, nops, dirty>>
 
 (* ---------- invariants ---------- *)
 BufferBounded == Class = "sponge" /\ ~fin /\ ~bufNil => bufSize \in 0..(Rate - 1)      \* the padding byte always fits
 BufferAccounts == Class = "sponge" /\ ~fin => blocks * Rate + (IF bufNil THEN 0 ELSE bufSize) = slen
 NilOnlyFresh  == Class = "sponge" /\ bufNil => slen = 0 /\ blocks = 0 /\ ~fin
 FastPathOnlyWhole == fast <= blocks
+\* only a finalised sponge can be misused, and Reset / ComputeHash end the unspecified episode
+DirtyOnlyFinalised == dirty => (Class = "sponge" /\ fin)
 
 Emit == (Record /\ nops = MaxOps) => PrintT(<<"CASE", ToJson([hist |-> hist])>>)
 =============================================================================
